@@ -156,10 +156,19 @@ def structural(chk):
     allowed = {('PlayingPhase', '__init__'), ('PlayingPhase', 'play_card'), ('PlayingPhaseWithHands', '__init__'),
                ('PlayingPhaseWithHands', 'play_card_by_player'), ('ObservedPlayingPhase', '__init__'),
                ('ObservedPlayingPhase', 'play_card_by_player'), ('ObservedPlayingPhase', 'set_dummy_hand')}
-    for cn in playing_classes:       # private helpers called only from the allowed writers write on their behalf
-        allowed |= {(cn, m) for c2, m in writer_closure(repo, list(playing_classes), {m for _, m in allowed}) if c2 == cn}
+    # the hierarchy of the engines: mixins / helper bases of the package in their MROs take part (a template method in a mixin that calls a
+    # hook of the concrete class is the same writer)
+    hierarchy = list(playing_classes)
+    for cn in playing_classes:
+        for c2 in repo.mro(repo.cls(cn, 'C05.R4')):
+            if c2.name not in hierarchy:
+                hierarchy.append(c2.name)
+    root_names = {m for _, m in allowed}
+    allowed |= {(cn, m) for cn in hierarchy for m in root_names if cn not in playing_classes}
+    for cn in hierarchy:       # private helpers called only from the allowed writers write on their behalf
+        allowed |= {(cn, m) for c2, m in writer_closure(repo, hierarchy, root_names) if c2 == cn}
     n = 0
-    for cname in playing_classes:
+    for cname in hierarchy:
         ci = repo.cls(cname, 'C05.R4')
         for meth, fn in ci.methods.items():
             for attr, node in writers_of(fn, {'hands', '_hand', '_dummy_hand', 'used_cards'}):
